@@ -86,6 +86,8 @@ class Gen:
             return "%s_v%d" % (name, vi[0])
 
         def pick(allow_const=True, for_op=False, for_flag=False, whole=False, results_only=False):
+            if for_flag and rng.random() < f.get("const_flag", 0.0):
+                return repr(rng.choice(FALSY_TRUTHY))  # (workloads that stress CONSTANT flags: their helper nodes carry ids too)
             cands = []
             for v, info in vars_.items():
                 if for_op and (info["maybe_none"] or not info["plain"]):
